@@ -368,6 +368,9 @@ def run_write_fault(ctx, rng, cands, spec):
 def run(ctx, spec):
     env.setup()
     cands = wlxml.shipped(env.REPO)
+    if spec.get('shard') == 0 and ctx.tier == 'thorough':
+        from .. import objcheck
+        objcheck.long_history(ctx, ctx.rng, cands, 101000)     # (more messages on one connection than any round number a cap might use below it)
     for i in range(spec['n']):
         run_one(ctx, ctx.rng, cands, spec)
         if i % 4 == 0:
@@ -387,6 +390,9 @@ def finalize(m):
 
 def replay(ctx, case):
     env.setup()
+    if 'long_history' in case:
+        from .. import objcheck, wlxml as _w
+        return objcheck.long_history(ctx, ctx.rng, _w.shipped(env.REPO), case['long_history'])
     s = Session(filter_text=case.get('filter'))
     s.feed([l + '\n' for l in case['lines']], hooks={int(p): v for p, v in case['hooks'].items()})
     # decide again from the stored per-line expectation [must be shown, may be shown]
